@@ -459,3 +459,4 @@ TECHNIQUE = 'runtime oracle: AST equality with the uncommented print + COMMENT-t
 LEVEL_TEXT = ('Every placement (singles, pairs, full; all subsets in thorough) of comments and trailing comments on every node of every value tree up to 4 nodes over 9 container/call kinds, '
               'with adversarial texts, is printed at several widths; the syntax tree must equal the uncommented one and the comment words must be conserved exactly.')
 LEVEL_NOTE = 'Texts come from a fixed adversarial template list; one comment of each kind per node; trailing comments only on list/tuple/set/dict (the printers that render them).'
+ANCHORS = ['prettyprinter.commentdoc', 'prettyprinter.sequence_of_docs', 'prettyprinter.build_fncall', 'prettyprinter.pretty_dict', 'prettyprinter.comment_doc', 'prettyprinter.unwrap_comments']
